@@ -9,6 +9,7 @@ import (
 	"sort"
 	"strings"
 	"testing"
+	"testing/synctest"
 	"time"
 
 	entsql "entgo.io/ent/dialect/sql"
@@ -36,6 +37,7 @@ type World struct {
 	lastMsgs   map[uuid.UUID]*ent.Message
 	lastTopics map[uuid.UUID]*ent.Topic
 	lastDump   string
+	cancelBase context.CancelFunc
 	// delivery ids handed to a client by a pull (the only ids a client can name)
 	handed map[uuid.UUID]bool
 	// fault runs: called between an operation's last statement and its COMMIT
@@ -64,12 +66,19 @@ func NewWorld(t *testing.T, seed int64) *World {
 	if err := mdb.MigrateUpEnt(t.Context(), client.Schema); err != nil {
 		t.Fatalf("migrate: %v", err)
 	}
-	w := &World{T: t, Ctx: context.Background(), Client: client, Ctl: ctl, Seed: seed}
+	baseCtx, baseCancel := context.WithCancel(context.Background())
+	w := &World{T: t, Ctx: baseCtx, cancelBase: baseCancel, Client: client, Ctl: ctl, Seed: seed}
 	w.Lines = append(w.Lines, "reset")
 	return w
 }
 
 func (w *World) Close() {
+	// (a transaction an operation left open is rolled back by database/sql when its context ends; without
+	// this its watcher goroutine would still be blocked when the bubble ends)
+	if w.cancelBase != nil {
+		w.cancelBase()
+		synctest.Wait()
+	}
 	w.Client.Close()
 	uuid.SetRand(nil)
 	actions.WakeAllInternal()
